@@ -28,6 +28,7 @@ RULE = ("programs of 3-11 nodes with 1-4 effects of every kind (Effect::new, Ren
         "another selector, with 1-4 keys each, read through selected(key) by effects of every kind and by memos. A 'nested' stream "
         "(oracle only) has effects whose bodies create effects (depth up to 2) and memos at run time. For small programs (2-3 effects, 2 writes) every schedule of up to 2 polls between "
         "the operations is enumerated; beyond that schedules are seeded-random. Every case runs under a 4 s watchdog. "
+        "Since the anchor coverage audit half of the cases of every stream carry API VARIANTS on their nodes (fields the model's decoder does not read, so the traces are still compared with the model): every signal / memo / wrapper is read through one of get, with, *read(), track() + get_untracked(), try_get (and the untracked siblings); every signal is written through one of set, update, maybe_update(true), a write() guard, try_set, try_update, a SignalSetter (from(WriteSignal) / from(RwSignal) / map), update_untracked + notify, a MappedSignal / ArcMappedSignal view, write_untracked + notify (and notified through notify(), an untouched write guard or update(|_| {})); memos are built with new / new_with_compare, new_owning (the body returns the changed flag) or as the other handle type and converted; derived signals also as MaybeSignal::derive, MaybeProp (from / derive), Signal<Option<T>>::from, Signal::from(MaybeSignal), derive_local / stored_local / Signal<_, LocalStorage>::from, From<T>; effects also as Effect::new_sync, Effect::watch_sync, RenderEffect::new_isomorphic / new_with_value, ImmediateEffect::new_isomorphic / new_scoped / new_mut; an effect is also disposed through Dispose::dispose / Effect::stop on its handle; a case flag makes the executor hand out a NEW waker on every poll (older wakers are dead) and another one switches untrack to untrack_with_diagnostics. A 'wide' family puts 17-24 effects under ONE owner that the history pauses / resumes / disposes; an 'adopt' family (oracle only) creates Effect::new / watch / new_isomorphic effects in the middle of the history under the owner of an existing effect, which may be paused at that moment (op (10 e k)); a 'silent' family (oracle only) interleaves operations that are not writes. "
         "Non-trivial = some effect ran at least twice; distinct = distinct case hash.")
 TRUSTED = [
     "Coq 8.16.1 kernel (coqc); no axioms: every theorem of Properties_C02.v is 'Closed under the global context'",
@@ -50,6 +51,7 @@ TRUSTED = [
     "Arc/Weak liveness of EffectInner (dropped when its owner is cleaned up / the RenderEffect handle is dropped), RwLock "
     "semantics on one thread; the lock layer itself (F-C02-b) is observed by the watchdog, not modelled",
     "ImmediateEffect is not part of the Coq model: its cases are checked by the watchdog and the Python oracle only",
+    "API variants (coverage/C01.md, C09.md, C02.md): the variant fields of a case are ignored by the model's decoder (GraphRun.dec_decl / dec_op read the fields before them), so the model runs the construct each variant must be equivalent to (get for every read path, set for every write path, Effect::new for new_sync, Effect::watch for watch_sync, RenderEffect::new for new_isomorphic / new_with_value, owner cleanup for Dispose::dispose / Effect::stop); that equivalence is COMPARED (trace equality on every run) and judged by the Python oracle, NOT PROVED: the theorems speak about the modelled constructs",
 ]
 ASSUMPTIONS = [
     "one poll of a task is atomic (single thread)",
@@ -65,6 +67,9 @@ ASSUMPTIONS = [
     "means a later run of the selector's internal effect that flips f(key, .) for a key the effect read (the selector's contract)",
     "a notification that was pending when the owner was paused and is consumed during the pause is treated like a change "
     "made during the pause (documented as not replayed)",
+    "an operation that does not notify is not a write: maybe_update / try_maybe_update whose closure returns false, a write() guard that is untracked before it is dropped, update_untracked / write_untracked without a following notify() leave the value as it is in the generated cases; a value stored without notification (update_untracked that really changes it) is outside the property (the graph cannot know) and is not generated",
+    "effects created in the middle of the history (op (10 e k), 'adopt' family: Effect::new / watch / new_isomorphic created with owner.with(..) under the owner of an existing effect; a RenderEffect is not created that way because its first run IS its creation) are checked by the Python oracle only; an effect created under a paused owner counts as paused until that owner (or an ancestor) is resumed -- the unchanged code runs it (finding F-C02-g, open); owners that were cleaned up are not used for creation (cleanup cuts them off from their parent)",
+    "ImmediateEffect is driven without pause / resume (it is not among the effect kinds of the property text). Observed, not judged: its mark_check overwrites a Dirty mark received during a pause with Check, so after resume it may stay stale until a source really changes (an Effect keeps its dirty flag and runs at the next notification)",
 ]
 LEVEL_TEXT = ("Coq proofs over an executable model of EffectInner, the notification channel, the task loop of Effect::new / "
               "RenderEffect / watch and an explicit run queue, for all programs, all histories and all schedules; tied to /repo by "
@@ -73,7 +78,9 @@ LEVEL_TEXT = ("Coq proofs over an executable model of EffectInner, the notificat
 LEVEL_NOTE = ("see Properties_C02.v: idle convergence is proved for every program outside the class self_feeding (effects and watch "
               "handlers may write signals, but not into their own static cone), for every static owner tree (pause / resume reach "
               "every descendant: C02_pause_reaches_descendants); findings F-C02-a/b/c/e/f repaired, F-C02-d (that class; classify() here "
-              "uses the same predicate on the case's own effects) open; selectors COMPARED-NOT-PROVED for idle convergence (their "
+              "uses the same predicate on the case's own effects) open; F-C02-g (an effect created under a paused owner runs: Owner::new() starts "
+              "unpaused) open, found on the oracle-only 'adopt' family: the model's owner tree is static, so no theorem speaks about it "
+              "(classify(): exactly the failure 'an effect created by (10 e k) under a paused owner, not resumed since, ran'); selectors COMPARED-NOT-PROVED for idle convergence (their "
               "model is a program transformation that falls into the excluded class); ImmediateEffect oracle-only.")
 TECHNIQUE = "Coq proof (invariant over all schedules) + differential correspondence of the extracted model with the Rust code"
 
@@ -216,14 +223,24 @@ def generate(rng, tier):
         ops = X.gen_ops(rng, prog, rng.randint(6, 30), w=(0.42, 0.03, 0.08, 0.20, 0.22, 0.05), vals=X.SEL_VALUES)
         if rng.random() < 0.8:
             ops.append([4])
-        yield dict(case=C.norm([prog, ops]), kind="selector", compare=True)
+        if i % 2:
+            X.add_variants(rng, prog, 0.5)
+        yield dict(case=C.norm(X.with_flags(rng, prog, ops, 0.3 if i % 2 else 0)), kind="selector", compare=True)
     # effects creating nested effects (and memos) at run time, re-created by every run of their creator (not
     # modelled: watchdog + oracle only)
     for i in range(3000 if quick else 30000):
         prog = X.gen_dynamic_program(rng, rng.choice([1, 1, 2]), with_effects=True)
         ops = X.gen_ops(rng, prog, rng.randint(6, 30), w=(0.35, 0.04, 0.12, 0.2, 0.2, 0.09))
         ops.append([4])
-        yield dict(case=C.norm([prog, ops]), kind="nested", compare=False)
+        if i % 2:
+            X.add_variants(rng, prog, 0.5)
+        yield dict(case=C.norm(X.with_flags(rng, prog, ops, 0.3 if i % 2 else 0)), kind="nested", compare=False)
+    # width: an owner with 17-24 child owners (Owner::pause / resume / cleanup walk them), signals with many subscribers
+    for i in range(120 if quick else 1200):
+        wc = X.gen_wide_case(rng, rng.randint(2, 8), rng.randint(18, 25), tree=True)
+        if i % 2:
+            X.add_variants(rng, wc[0], 0.3)
+        yield dict(case=C.norm(X.with_flags(rng, wc[0], wc[1], 0.3)), kind="wide", compare=True)
     # effects created in the middle of the history under the owner of an existing effect, paused or not (oracle only)
     for i in range(2500 if quick else 25000):
         yield dict(case=C.norm(X.gen_adopt_case(rng)), kind="adopt", compare=False)
